@@ -340,7 +340,23 @@ pub fn drive(sc: &Scenario, e: &mut Emu, d: &Driving) -> Result<Trace, String> {
                 part_i += 1;
                 e.set_speed(EmulationMode::FrameCount(want as usize));
                 e.debug_interface().unwrap().mode = BpMode::Never;
-                e.emulate_frames(LONG).map_err(|x| format!("{:?}", x))?;
+                // a FrameCount(n) call is n frames whatever the host's stopwatch reads and whatever
+                // time limit it passes: every other call sees a stopwatch far beyond a 1 ms limit,
+                // or one that jumps back and forth across it
+                let (limit, script) = match part_i % 3 {
+                    0 => (LONG, vec![]),
+                    1 => (Duration::from_micros(1000), vec![u64::MAX / 4]),
+                    _ => (Duration::from_micros(1000), vec![5000, 3, 900, 1_000_000, 0]),
+                };
+                set_stopwatch_script(script.clone());
+                let info = e.emulate_frames(limit).map_err(|x| format!("{:?}", x))?;
+                set_stopwatch_script(vec![]);
+                if total(e) - now != want || info.stop_reason != EmulationStopReason::Completed {
+                    return Err(format!(
+                        "a FrameCount({}) call emulated {} frames and reported {} (time limit {:?}, scripted stopwatch readings {:?} us)",
+                        want, total(e) - now, match info.stop_reason { EmulationStopReason::Completed => "Completed", EmulationStopReason::Timeout => "Timeout", _ => "Breakpoint" }, limit, script
+                    ));
+                }
             }
             Driving::Max(kind) => {
                 let n = (next_event - now) as usize;
@@ -595,7 +611,7 @@ pub fn replay(run: &mut Run, phase: &str, case: &serde_json::Value) -> Result<()
 }
 
 pub const LEVEL: &str = "exploration";
-pub const RULE: &str = "scenario = machine x generated interrupt-driven program (ALU, memory and screen writes, beeper/border OUTs, keyboard+EAR, Kempston and mouse reads stored to RAM, AY register writes with read-back, 128K paging, LDIR, HALT, EI/DI) with a self-counting IM 1 / IM 2 handler x sound settings (AY, beeper, sample rate 8000..96000, volume) x tape (none / playing / stopped with fast loading on / stopped with fast loading off) x input script (key / joystick / mouse events attached to frame indices) x K = 2..12 frames, started from a SNA file. The reference run drives it one frame per call, draining audio. The run under test uses one of: the same again (repeatability, audio compared bit for bit), a partition into FrameCount(n) calls, maximum-speed mode with scripted stopwatch readings (zeros, non-monotonic, large), breakpoint stops after generated instruction counts with resumption, audio never drained, sound switched off, sound switched on and off between frames; and delivers the initial file, the tape image and (with short reads) the ROM images through the harness asset, rustzx's BufferCursor, a real temporary file (FileAsset), GzipAsset, or an asset returning 1..255 bytes per read. At every frame count where the run under test stops on a frame boundary, a hash of registers, all RAM banks, paging, frame clock, canvas and border buffers must equal the reference run's. non-trivial = >= 2 frames and a driving or asset different from the reference; distinct = hash of the case. Phase event-on-the-frame-crossing-instruction (enumerated): a program that enters the ROM tape routine (stopped tape, fast loading on) after a calibrated delay, 32 consecutive paddings of 4 T-states x both machines x five drivings, so that for some padding the instruction in front of the fast loader's trap address is the one during which the frame ends; the same comparison against the one-frame-per-call run; non-trivial there = a probe run with a breakpoint on the trap address stops with the frame counter just advanced and fewer than 4 T-states on the frame clock";
+pub const RULE: &str = "scenario = machine x generated interrupt-driven program (ALU, memory and screen writes, beeper/border OUTs, keyboard+EAR, Kempston and mouse reads stored to RAM, AY register writes with read-back, 128K paging, LDIR, HALT, EI/DI) with a self-counting IM 1 / IM 2 handler x sound settings (AY, beeper, sample rate 8000..96000, volume) x tape (none / playing / stopped with fast loading on / stopped with fast loading off) x input script (key / joystick / mouse events attached to frame indices) x K = 2..12 frames, started from a SNA file. The reference run drives it one frame per call, draining audio. The run under test uses one of: the same again (repeatability, audio compared bit for bit), a partition into FrameCount(n) calls (each of which must complete exactly n frames and report Completed, also with a scripted stopwatch far beyond or jumping across a 1 ms time limit), maximum-speed mode with scripted stopwatch readings (zeros, non-monotonic, large), breakpoint stops after generated instruction counts with resumption, audio never drained, sound switched off, sound switched on and off between frames; and delivers the initial file, the tape image and (with short reads) the ROM images through the harness asset, rustzx's BufferCursor, a real temporary file (FileAsset), GzipAsset, or an asset returning 1..255 bytes per read. At every frame count where the run under test stops on a frame boundary, a hash of registers, all RAM banks, paging, frame clock, canvas and border buffers must equal the reference run's. non-trivial = >= 2 frames and a driving or asset different from the reference; distinct = hash of the case. Phase event-on-the-frame-crossing-instruction (enumerated): a program that enters the ROM tape routine (stopped tape, fast loading on) after a calibrated delay, 32 consecutive paddings of 4 T-states x both machines x five drivings, so that for some padding the instruction in front of the fast loader's trap address is the one during which the frame ends; the same comparison against the one-frame-per-call run; non-trivial there = a probe run with a breakpoint on the trap address stops with the frame counter just advanced and fewer than 4 T-states on the frame clock";
 pub const ASSUMPTIONS: &[&str] = &[
     "inputs are applied between emulate_frames calls at the same frame indices in all drivings (the property's 'inputs applied at frame boundaries')",
     "total frame count comes from the cfg(rustzx_verif) frame counter hook",
